@@ -159,7 +159,8 @@ func beRead(v ssa.Value, base ssa.Value) (lo, n int64, loads []ssa.Value, ok boo
 }
 
 // beFold: ph is the accumulator of a big-endian fold loop over base[lo:hi]:
-//   v := 0; for _, b := range base[lo:hi] { v = v<<8 | T(b) }      (φ(0, (φ<<8) | T(*&S[i])) with S = base[lo:hi])
+//
+//	v := 0; for _, b := range base[lo:hi] { v = v<<8 | T(b) }      (φ(0, (φ<<8) | T(*&S[i])) with S = base[lo:hi])
 func beFold(ph *ssa.Phi, base ssa.Value) (lo, n int64, ok bool) {
 	zero, step := false, ssa.Value(nil)
 	for _, e := range ph.Edges {
